@@ -102,6 +102,11 @@ pub fn run_c01(tier: &str, seed: u64, out: &mut Out) {
         let v = gen_value(&mut r, &cfg, 0);
         c01_value(out, &v);
     }
+    // wide, shallow values: hundreds of datums of one kind side by side
+    for _ in 0..(n / 100).max(18) {
+        let v = crate::genval::gen_wide(&mut r);
+        c01_value(out, &v);
+    }
     // every byte in a byte vector, chars and one-char strings over scalar classes
     for b in 0..=255u8 {
         c01_value(out, &Value::bytes(vec![b]));
@@ -293,6 +298,16 @@ pub fn run_c12(tier: &str, seed: u64, out: &mut Out) {
         if let Some(items) = items_four_ways(out, t.as_bytes(), ro, &case) {
             out.count("stream:foreign");
             out.case(case, items.join(" ;; "), true);
+        }
+    }
+    // hundreds of datums of one kind on one parser, runs of failing datums followed by ordinary ones
+    for t in crate::gentext::wide_sequences() {
+        for ro in [Ro::DEFAULT, Ro::ELISP] {
+            let case = format!("iter str {} v {} {}", ro.code(), t.len() + 3, bytes_code(t.as_bytes()));
+            if let Some(items) = items_four_ways(out, t.as_bytes(), ro, &case) {
+                out.count("stream:wide");
+                out.case(case, items.join(" ;; "), true);
+            }
         }
     }
 }
